@@ -294,6 +294,87 @@ theorem unallocated_quiet (cfg : Cfg) (s : State) (hcur : s.cur = .unallocated) 
       ↓reduceIte]
     rfl
 
+/-! ## Allocation never releases a chunk and never forgets one -/
+
+/-- across any `Ext`-related pair of states the releases due only grow at the end -/
+theorem owned_prefix_of_ext {cfg : Cfg} {n : Nat} {s s' : State} (h : Ext n s s') :
+    owned cfg s = (owned cfg s').take s.chunks.length := by
+  unfold owned
+  apply List.ext_getElem?
+  intro j
+  simp only [List.getElem?_map, List.getElem?_take]
+  cases hc : s.chunks[j]? with
+  | none =>
+    have : ¬ j < s.chunks.length := by rw [List.getElem?_eq_none_iff] at hc; omega
+    simp only [this, ↓reduceIte, Option.map_none]
+  | some c =>
+    have hj := (List.getElem?_eq_some_iff.1 hc).1
+    obtain ⟨c', h1, sp, _⟩ := h.chunk j c hc
+    simp only [hj, ↓reduceIte, h1, Option.map_some, deallocReq, sp.1, sp.2.1]
+
+/-- `alloc` (fast and slow path, every outcome): the only request it can make is ONE `alloc` with the
+    header alignment — never a release; every release that was due is still due, unchanged; when it
+    reports an error the releases due are exactly the same (a refused chunk is not owed) -/
+theorem alloc_never_releases {cfg : Cfg} {s s' : State} {L : Layout} {r : Except AErr Nat}
+    (e : alloc cfg s L = .ok (s', r)) :
+    (s'.reqs = s.reqs ∨ ∃ size, s'.reqs = s.reqs ++ [BaseReq.alloc size cfg.hdr.align]) ∧
+    owned cfg s = (owned cfg s').take s.chunks.length ∧
+    (∀ er, r = .error er → owned cfg s' = owned cfg s) := by
+  obtain ⟨a1, a2, _, a4⟩ := alloc_frame e
+  have hx := a1 0 (fun _ _ => Nat.zero_le _)
+  refine ⟨a2, owned_prefix_of_ext hx, fun er he => ?_⟩
+  have hlen := ((a4 er he).2.err er he).1
+  have := owned_prefix_of_ext (cfg := cfg) hx
+  rw [this, ← hlen]
+  unfold owned
+  rw [← List.length_map (f := deallocReq cfg), List.take_length]
+
+theorem allocGeneric_never_releases {cfg : Cfg} {k : Kind} {s s' : State} {L : Layout} {h hs : Hints}
+    {r : Except AErr (Nat × Nat)} (e : allocGeneric cfg k s L h hs = .ok (s', r)) :
+    (s'.reqs = s.reqs ∨ ∃ size, s'.reqs = s.reqs ++ [BaseReq.alloc size cfg.hdr.align]) ∧
+    owned cfg s = (owned cfg s').take s.chunks.length ∧
+    (∀ er, r = .error er → owned cfg s' = owned cfg s) := by
+  obtain ⟨a1, a2, _, a4⟩ := allocGeneric_frame e
+  have hx := a1 0 (fun _ _ => Nat.zero_le _)
+  refine ⟨a2, owned_prefix_of_ext hx, fun er he => ?_⟩
+  have hlen := ((a4 er he).2.err er he).1
+  have := owned_prefix_of_ext (cfg := cfg) hx
+  rw [this, ← hlen]
+  unfold owned
+  rw [← List.length_map (f := deallocReq cfg), List.take_length]
+
+theorem reserve_never_releases {cfg : Cfg} {s s' : State} {add : Nat} {r : Except AErr Unit}
+    (e : reserve cfg s add = .ok (s', r)) :
+    (s'.reqs = s.reqs ∨ ∃ size, s'.reqs = s.reqs ++ [BaseReq.alloc size cfg.hdr.align]) ∧
+    owned cfg s = (owned cfg s').take s.chunks.length ∧
+    (∀ er, r = .error er → owned cfg s' = owned cfg s) := by
+  obtain ⟨a1, a2, _⟩ := reserve_frame e
+  refine ⟨a2.reqs, owned_prefix_of_ext (a1 0), fun er he => ?_⟩
+  have hlen := (a2.err er he).1
+  have := owned_prefix_of_ext (cfg := cfg) (a1 0)
+  rw [this, ← hlen]
+  unfold owned
+  rw [← List.length_map (f := deallocReq cfg), List.take_length]
+
+/-! ## Unproved part -/
+
+/-- NOT PROVED (history level): along every sequence of `stepCore` steps the multiset of blocks
+    granted so far equals the multiset of blocks released so far plus the releases due (`owned`), hence
+    after `drop` everything granted has been released exactly once.  Proved above: the per-function
+    ledger facts this induction needs for chunk creation, allocation, reserve, the quiet operations,
+    `reset` and `manually_drop`.  Missing: the case analysis over all 40 operations of `stepCore`
+    (the remaining ones only reposition or write bytes).  The two hypotheses are the part of the arena
+    invariant (`Arena/Inv`) the statement needs: the current chunk exists, an unallocated arena has no chunk. -/
+def history_ledger_target : Prop :=
+  ∀ (cfg : Cfg) (g g' : GState) (op : Op) (out : Out),
+    (∀ i, g.s.cur = .chunk i → i < g.s.chunks.length) → (g.s.cur = .unallocated → g.s.chunks = []) →
+    stepCore cfg g op = .ok (g', out) →
+    ∃ l, g'.s.reqs = g.s.reqs ++ l ∧
+      ∃ acquired : List Chunk,
+        ((l.filter (fun q => match q with | .dealloc .. => true | _ => false)) ++ owned cfg g'.s).Perm
+          (owned cfg g.s ++ acquired.map (deallocReq cfg)) ∧
+        acquired.length ≤ (l.filter (fun q => match q with | .alloc .. => true | _ => false)).length
+
 /-! ## Non-vacuity: concrete states satisfying the hypotheses (checked by evaluation) -/
 
 section Examples
